@@ -1282,3 +1282,194 @@ Proof.
   - destruct k; try (apply Hev; auto; discriminate). now apply Hone.
   - apply Hev; auto; discriminate.
 Qed.
+
+(* ================================================================== frames of a history *)
+
+(* The scroll offset survives between frames.  What follows: which frames reset it, which
+   leave it alone, that the specification's own scroll record (ti_scrolled_next, computed
+   from the Draw observations alone) never says "unscrolled" while the model's offset is
+   not 0, and hence that every history of observations that agrees with the model satisfies
+   the frame clause of the guarded property (ti_draws_ok false). *)
+
+Lemma cluster_eqb_eq (a b : cluster) : cluster_eqb a b = true -> a = b.
+Proof.
+  destruct a as [a1 a2], b as [b1 b2]; unfold cluster_eqb; cbn [fst snd]. intros H.
+  apply andb_true_iff in H as [H1 H2]. apply zlist_eqb_eq in H1. f_equal; [exact H1 | lia].
+Qed.
+
+Lemma clusters_eqb_eq (a b : list cluster) : clusters_eqb a b = true -> a = b.
+Proof.
+  unfold clusters_eqb. revert b; induction a as [|x a IH]; intros [|y b]; cbn [list_eqb]; intros H;
+    try discriminate; [reflexivity|].
+  apply andb_true_iff in H as [H1 H2]. f_equal; [now apply cluster_eqb_eq | now apply IH].
+Qed.
+
+Lemma widths_okb_ok cs : widths_okb cs = true -> widths_ok cs.
+Proof.
+  unfold widths_okb, widths_ok. intros H. apply Forall_forall. intros c Hc.
+  rewrite forallb_forall in H. specialize (H c Hc). lia.
+Qed.
+
+Section Keeps.
+  Variable chars : text -> option (list cluster).
+  Variable alnum : Z -> bool.
+
+  Lemma ti_update_body_keeps m e m1 b :
+    ti_update_body chars alnum m e = Some (m1, b) ->
+    ti_offset m1 = ti_offset m /\ ti_prompt m1 = ti_prompt m.
+  Proof.
+    destruct e as [| |s|k|md s|]; cbn [ti_update_body]; cbv zeta; try destruct k;
+    repeat match goal with
+      | |- context [match ?x with _ => _ end] => destruct x eqn:?
+      end; intros H; inversion H; subst; cbn; auto.
+  Qed.
+
+  Lemma ti_update_keeps m e m' :
+    ti_update chars alnum m e = Some m' -> ti_offset m' = ti_offset m /\ ti_prompt m' = ti_prompt m.
+  Proof.
+    unfold ti_update. destruct (ti_update_body chars alnum m e) as [[m1 [|]]|] eqn:E; try discriminate;
+      intros H; injection H as <-; apply ti_update_body_keeps in E; [exact E|].
+    unfold ti_clamp, ti_set; cbn [ti_offset ti_prompt]. exact E.
+  Qed.
+
+  Lemma ti_set_content_keeps m s m' :
+    ti_set_content chars m s = Some m' -> ti_offset m' = ti_offset m /\ ti_prompt m' = ti_prompt m.
+  Proof.
+    unfold ti_set_content. destruct (chars s); [|discriminate]. intros H; injection H as <-. cbn; auto.
+  Qed.
+End Keeps.
+
+(* ---------- frames ---------- *)
+
+Lemma prompt_walk_full p : forall col w,
+  widths_ok p -> col < w -> w <= col + cl_width p -> prompt_walk p col w = None.
+Proof.
+  induction p as [|c p IH]; intros col w Hw Hc Hf; cbn [prompt_walk].
+  - cbn in Hf. lia.
+  - inversion Hw as [|? ? Hc0 Hw']; subst. rewrite cl_width_cons in Hf.
+    destruct (col + snd c >=? w) eqn:E; [reflexivity|]. apply IH; auto; lia.
+Qed.
+
+(* a frame that does not reach the text leaves the offset alone *)
+Lemma ti_draw_not_reached m w :
+  widths_ok (ti_prompt m) -> ti_not_reached (ti_prompt m) w = true ->
+  ti_draw m w = DrawDone (ti_offset m) None.
+Proof.
+  intros Hp H. unfold ti_not_reached in H. unfold ti_draw.
+  destruct (w =? 0) eqn:E; [reflexivity|].
+  rewrite prompt_walk_full by (auto; lia). reflexivity.
+Qed.
+
+(* a frame that reaches the text ends in scroll_back of wherever the scroll loop stopped *)
+Lemma ti_draw_reached m w :
+  widths_ok (ti_prompt m) -> ti_reached (ti_prompt m) w = true ->
+  exists o1 c, ti_draw m w = DrawDone (scroll_back (ti_cursor m) o1) (Some c).
+Proof.
+  intros Hp H. unfold ti_reached in H. pose proof (ti_draw_no_hang m w) as Hh. unfold ti_draw in *.
+  destruct (w =? 0) eqn:E; [lia|]. rewrite prompt_walk_fit in * by (auto; lia).
+  destruct (scroll_loop (scroll_fuel m) (ti_content m) (ti_cursor m) (ti_offset m) (0 + cl_width (ti_prompt m)) w) as [o1|];
+    [eauto | congruence].
+Qed.
+
+Lemma scroll_back_reset cursor o : cursor <= scrolloff -> scroll_back cursor o = 0.
+Proof.
+  unfold scroll_back, scrolloff. intros H.
+  destruct (cursor - 4 - o <? 0) eqn:E1.
+  - destruct (cursor - 4 <? 0) eqn:E2; lia.
+  - destruct (o <? 0) eqn:E2; lia.
+Qed.
+
+(* the resetting frame: cursor within the first scrolloff graphemes *)
+Lemma ti_draw_resets m w :
+  widths_ok (ti_prompt m) -> ti_reached (ti_prompt m) w = true -> ti_cursor m <= scrolloff ->
+  exists c, ti_draw m w = DrawDone 0 (Some c).
+Proof.
+  intros Hp Hr Hc. destruct (ti_draw_reached m w Hp Hr) as (o1 & c & H).
+  rewrite scroll_back_reset in H by exact Hc. eauto.
+Qed.
+
+(* an unscrolled view in which everything fits stays unscrolled (any cursor) *)
+Lemma ti_draw_fits_keeps0 m w :
+  widths_ok (ti_prompt m) -> widths_ok (ti_content m) -> ti_offset m = 0 ->
+  ti_fits_margin (ti_prompt m) (ti_content m) w = true ->
+  exists c, ti_draw m w = DrawDone 0 (Some c).
+Proof.
+  intros Hp Hc Hoff Hfit. unfold ti_fits_margin in Hfit. unfold ti_draw, scrolloff in *.
+  pose proof (cl_width_nonneg _ Hp) as Hp0. pose proof (cl_width_nonneg _ Hc) as Hc0.
+  destruct (w =? 0) eqn:E; [lia|]. rewrite prompt_walk_fit by (auto; lia). rewrite Hoff.
+  pose proof (wtc_bounds (ti_content m) 0 (ti_cursor m) 0 0 Hc) as Hb.
+  fold (width_to_cursor (ti_content m) (ti_cursor m) 0) in Hb.
+  unfold scroll_fuel. cbn [scroll_loop]. unfold scrolloff.
+  destruct ((width_to_cursor (ti_content m) (ti_cursor m) 0 + (0 + cl_width (ti_prompt m)) + 4 >=? w) && (0 <? ti_cursor m)) eqn:E1; [lia|].
+  assert (E2 : scroll_back (ti_cursor m) 0 = 0).
+  { unfold scroll_back, scrolloff. destruct (ti_cursor m - 4 - 0 <? 0) eqn:E3; [|reflexivity].
+    destruct (ti_cursor m - 4 <? 0) eqn:E4; lia. }
+  rewrite E2. eauto.
+Qed.
+
+(* the spec's scroll record is sound for the model: while it says "unscrolled", the
+   model's offset is 0 *)
+Lemma ti_scrolled_next_sound m w scrolled o shown :
+  widths_ok (ti_prompt m) -> widths_ok (ti_content m) ->
+  (scrolled = false -> ti_offset m = 0) ->
+  ti_draw m w = DrawDone o shown ->
+  ti_scrolled_next (ti_prompt m) w scrolled (ti_content m) (ti_cursor m) = false -> o = 0.
+Proof.
+  intros Hp Hc Hinv Hd. unfold ti_scrolled_next.
+  destruct (ti_reached (ti_prompt m) w && (ti_cursor m <=? scrolloff)) eqn:E1.
+  - intros _. apply andb_true_iff in E1 as [E1 E2].
+    destruct (ti_draw_resets m w Hp E1 ltac:(lia)) as (c & H). congruence.
+  - destruct (ti_fits_margin (ti_prompt m) (ti_content m) w || ti_not_reached (ti_prompt m) w) eqn:E2; [|discriminate].
+    intros Hs. specialize (Hinv Hs). apply orb_true_iff in E2 as [E2|E2].
+    + destruct (ti_draw_fits_keeps0 m w Hp Hc Hinv E2) as (c & H). congruence.
+    + rewrite (ti_draw_not_reached m w Hp E2) in Hd. congruence.
+Qed.
+
+(* Every history of observations that agrees with the model satisfies the frame clause of
+   the guarded property. *)
+Theorem ti_agree_frames_ok al : forall steps m scrolled,
+  widths_okb (ti_prompt m) = true -> ti_obs_widths_ok steps = true ->
+  (scrolled = false -> ti_offset m = 0) ->
+  ti_agree al m steps = true ->
+  ti_draws_ok false (ti_prompt m) (ti_offset m) scrolled steps = true.
+Proof.
+  induction steps as [|[[o tbl] [[[[[ocl ocur] ooff] oout] oshown] reseg]] rest IH];
+    intros m scrolled Hp Hw Hinv Hag; [reflexivity|].
+  cbn [ti_obs_widths_ok forallb] in Hw. apply andb_true_iff in Hw as [Hw0 Hw].
+  fold (ti_obs_widths_ok rest) in Hw.
+  pose proof (widths_okb_ok _ Hp) as Hp'. pose proof (widths_okb_ok _ Hw0) as Hocl.
+  cbn [ti_agree] in Hag. cbn [ti_draws_ok].
+  destruct o as [e|s|w]; cbn [ti_step] in Hag.
+  - destruct (ti_update (tbl_lookup tbl) (tbl_alnum al) m e) as [m'|] eqn:E.
+    + destruct (ti_update_keeps _ _ _ _ _ E) as [Ho Hpr].
+      repeat (apply andb_true_iff in Hag as [Hag ?]).
+      assert (oout = 0) as -> by lia. cbn [Z.eqb]. assert (ooff = ti_offset m') as -> by lia.
+      rewrite <- Hpr. apply IH; auto; [now rewrite Hpr | rewrite Ho; exact Hinv].
+    + assert (oout = 1) as -> by lia. reflexivity.
+  - destruct (ti_set_content (tbl_lookup tbl) m s) as [m'|] eqn:E.
+    + destruct (ti_set_content_keeps _ _ _ _ E) as [Ho Hpr].
+      repeat (apply andb_true_iff in Hag as [Hag ?]).
+      assert (oout = 0) as -> by lia. cbn [Z.eqb]. assert (ooff = ti_offset m') as -> by lia.
+      rewrite <- Hpr. apply IH; auto; [now rewrite Hpr | rewrite Ho; exact Hinv].
+    + assert (oout = 1) as -> by lia. reflexivity.
+  - destruct (ti_draw m w) as [|o shown] eqn:E; [exfalso; revert E; apply ti_draw_no_hang|].
+    repeat (apply andb_true_iff in Hag as [Hag ?]).
+    cbn [ti_content ti_cursor ti_offset] in *.
+    match goal with H : clusters_eqb _ _ = true |- _ => apply clusters_eqb_eq in H; rename H into Hcl end.
+    assert (Hcur : ocur = ti_cursor m) by lia. assert (Hoff : ooff = o) by lia.
+    assert (Hout : oout = 0) by lia. assert (Hsh : oshown = shown_code shown) by lia.
+    subst ocl ocur ooff oout oshown.
+    apply andb_true_iff; split.
+    + unfold ti_draw_ok. cbn [Z.eqb andb].
+      match goal with |- (if ?c then _ else _) = true => destruct c eqn:Ec end; [|reflexivity].
+      repeat (apply andb_true_iff in Ec as [Ec ?]).
+      assert (Hz0 : ti_offset m = 0).
+      { destruct (ti_offset m =? 0) eqn:E0; [lia|]. destruct scrolled; [discriminate|]. now apply Hinv. }
+      unfold ti_fits_margin in *.
+      rewrite (ti_drawn_cursor_column m w) in E by (auto; lia). injection E as <- <-.
+      cbn [shown_code]. lia.
+    + change (ti_prompt m) with (ti_prompt (mkTi (ti_content m) (ti_cursor m) o (ti_paste m) (ti_prompt m))).
+      change o with (ti_offset (mkTi (ti_content m) (ti_cursor m) o (ti_paste m) (ti_prompt m))) at 2.
+      apply IH; auto. cbn [ti_offset ti_prompt].
+      intros Hs. eapply ti_scrolled_next_sound; eauto.
+Qed.
